@@ -871,7 +871,7 @@ PROPS = {
              "a universe of 7 host entries that each have their own certificate, and invalid ones (a name in two classes, no main host, a "
              "certificate that does not exist, unparsable TOML, no file); after every reload a TLS client asks for 6 names and the "
              "certificate it is shown (= which entry) or the refusal is compared with the reload model; the process must stay alive",
-        explanation="theorems select_designated_host, no_entry_refused, exact_name_own_class, protocol_is_best_common, "
+        explanation="theorems select_designated_host, no_entry_refused, exact_name_own_class, protocol_is_best_common, failed_reloads_invisible, reload_idempotent, "
                     "common_protocol_accepted, default_only_when_no_alpn, unknown_alpn_ignored, tcp_never_h3, quic_always_h3, "
                     "quic_designated_host, quic_unknown_sni_is_bootstrap, reload_* about TT/Model/Demux.lean",
         trusted=["rustls / BoringSSL present the certificate chain whose path select returned: not modelled, observed by the live suite",
